@@ -678,3 +678,78 @@ def run(prog: Program, chk: Check) -> None:  # noqa: F811
     r10_1(prog, chk)
     r10_2(prog, chk)
     r10_3(prog, chk)
+
+
+# --------------------------------------------------------------------- R10.4
+# context fields that may be dropped from the key of a cache living on a shared object
+R104_DROPPABLE = {
+    ("_ConstrainedValue", "resolution_cache"): {"fallback_value": "the fallback only matters for values without definition nodes, which are looked up in the parent scope every time"},
+}
+
+
+def r10_4(prog: Program, chk: Check) -> None:
+    chk.rule(
+        "R10.4",
+        "caches that live on objects shared between scopes/files (a dataclass with a module-level singleton "
+        "instance) are keyed by the whole lookup context: no distinguishing field is dropped from the key",
+        floor=1,
+    )
+    # dataclasses with a dict-typed cache field and a module-level instance
+    shared: Dict[str, Set[str]] = {}
+    for mod in prog.modules.values():
+        for st in mod.tree.body:
+            if isinstance(st, ast.Assign) and isinstance(st.value, ast.Call) and isinstance(st.value.func, ast.Name) and st.value.func.id in prog.classes:
+                ci = prog.cls(st.value.func.id)
+                for f in prog.all_fields(ci.name):
+                    if f.annotation is not None and norm(f.annotation).startswith(("dict[", "Dict[")) and not f.init:
+                        shared.setdefault(ci.name, set()).add(f.name)
+    chk.analysed["shared_cache_fields"] = {k: sorted(v) for k, v in shared.items()}
+    n = 0
+    kcount: Dict[Tuple[str, str], int] = {}
+    for m, q, fn in prog.iter_functions():
+        for st in walk_no_nested(fn):
+            if not (isinstance(st, ast.Assign) and len(st.targets) == 1 and isinstance(st.targets[0], ast.Subscript)):
+                continue
+            t = st.targets[0]
+            if not isinstance(t.value, ast.Attribute):
+                continue
+            owners = [c for c, flds in shared.items() if t.value.attr in flds]
+            if not owners:
+                continue
+            cname = owners[0]
+            key = t.slice
+            srcs = [key]
+            if isinstance(key, ast.Name):
+                from .common import local_assignments
+
+                srcs = local_assignments(fn, key.id) or [key]
+            for s in srcs:
+                n += 1
+                kcount[(m, q)] = kcount.get((m, q), 0) + 1
+                dropped: List[str] = []
+                whole = False
+                if isinstance(s, ast.Call) and last_attr(s) == "replace" and s.args:
+                    dropped = [k.arg for k in s.keywords if k.arg]
+                    whole = True
+                elif isinstance(s, ast.Name):
+                    whole = True
+                allowed = R104_DROPPABLE.get((cname, t.value.attr), {})
+                bad = [d for d in dropped if d not in allowed]
+                chk.ob(
+                    "R10.4",
+                    f"{m}::{q}::shared-cache-key::{cname}.{t.value.attr}#{kcount[(m, q)]}",
+                    whole and not bad,
+                    prog.site(m, st),
+                    f"{cname}.{t.value.attr} is shared by every scope (module-level instance exists) but its key `{norm(s)[:60]}` drops {bad or 'unknown parts'} of the lookup context: "
+                    "a result computed for one function/file is returned for another",
+                )
+    if n == 0:
+        raise AnchorError("R10.4: no store into a shared cache field found")
+
+
+_run_123 = run
+
+
+def run(prog: Program, chk: Check) -> None:  # noqa: F811
+    _run_123(prog, chk)
+    r10_4(prog, chk)
